@@ -154,9 +154,21 @@ impl Property for C38 {
                 }
                 3 => {
                     // a tampered artefact: Invalid results must be repeatable too
-                    if let Some((f, b, o, _)) = arts.first().cloned() {
+                    // (the first or the latest artefact; three times in four inside its manifest
+                    // store, where a verdict cached under the manifest's label would go stale)
+                    let pick = if corrupt_at % 2 == 0 { arts.first() } else { arts.last() };
+                    if let Some((f, b, o, _)) = pick.cloned() {
                         let mut m = b.clone();
-                        let p = corrupt_at % m.len();
+                        let mut p = corrupt_at % m.len();
+                        if corrupt_at % 4 != 0 {
+                            if let Ok(st) = c2pa::jumbf_io::load_jumbf_from_memory(f.mime(), &b) {
+                                if st.len() > 64 {
+                                    if let Some(at) = crate::jumbf::find_sub(&b, &st[8..]) {
+                                        p = at + (corrupt_at / 4) % (st.len() - 8);
+                                    }
+                                }
+                            }
+                        }
                         m[p] ^= 0x20;
                         trace.push(format!("tamper+read({} @{p})", f.name()));
                         let c2 = Arc::new(sdk::make_context(&o));
